@@ -59,7 +59,7 @@ def ok_exits(eng, outs):
             yield s2, tup.fields[0], tup.fields[1]
 
 
-def check_standard(ctx, rule="WIRE-PH"):
+def check_standard(ctx, rule="WIRE-PH", only=None):
     F, R = ctx.facts, ctx.report
     b = F.body(STD)
     if b is None:
@@ -125,6 +125,8 @@ def check_standard(ctx, rule="WIRE-PH"):
             bad.append(("payload_length", "big-endian u16 at offset 2 minus %d header bytes" % hl, getattr(pl, "lin", pl)))
         if not (isinstance(rest, Slice) and rest.base == "input" and rest.off == Lin.const(off)):
             bad.append(("remainder", "input[%d..]" % off, getattr(rest, "off", rest)))
+        if only is not None:
+            bad = [x for x in bad if x[0] in only]
         if bad:
             for name, want, got in bad:
                 R.violation(rule, "%s|%s|%s" % (STD, name, re.sub(r"#\d+", "#", str(got))[:80]), "standard-header parser: field `%s` must be %s, it is %s [%s]" % (name, want, str(got)[:200], part), function=STD, file=fl, line=ln, partition=part)
@@ -135,7 +137,7 @@ def check_standard(ctx, rule="WIRE-PH"):
         R.violation(rule, STD + "|patterns", "expected 32 flag patterns on Ok exits, saw %d" % len(seen), function=STD, kind="UNRECOGNISED-SHAPE")
 
 
-def check_extended(ctx, rule="WIRE-PH"):
+def check_extended(ctx, rule="WIRE-PH", only=None):
     F, R = ctx.facts, ctx.report
     b = F.body(EXT)
     if b is None:
@@ -169,6 +171,8 @@ def check_extended(ctx, rule="WIRE-PH"):
             bad.append(("context_id", "4-byte id at offset 6", repr(hdr.fields[ix["context_id"]])[:120]))
         if not (isinstance(rest, Slice) and rest.base == "input" and rest.off == Lin.const(10)):
             bad.append(("remainder", "input[10..]", getattr(rest, "off", rest)))
+        if only is not None:
+            bad = [x for x in bad if x[0] in only]
         for name, want, got in bad:
             R.violation(rule, "%s|%s" % (EXT, name), "extended-header parser: field `%s` must be %s, it is %s" % (name, want, str(got)[:200]), function=EXT, file=fl, line=ln)
         if not bad:
@@ -178,7 +182,7 @@ def check_extended(ctx, rule="WIRE-PH"):
         R.violation(rule, EXT + "|exits", "no Ok exit of the extended-header parser analysed", function=EXT, kind="UNRECOGNISED-SHAPE")
 
 
-def check_storage(ctx, rule="WIRE-PH"):
+def check_storage(ctx, rule="WIRE-PH", only=None):
     """dlt_storage_header: pattern at `found`, seconds LE @found+4, microseconds LE @found+8, ECU id @found+12,
     remainder input[found+16..], reported shift = found (first occurrence of the pattern)."""
     F, R = ctx.facts, ctx.report
@@ -235,6 +239,8 @@ def check_storage(ctx, rule="WIRE-PH"):
             bad.append(("remainder", "input[pattern + 16..]", getattr(rest, "off", rest)))
         if not (isinstance(shift, Int) and shift.lin == fo):
             bad.append(("shift", "the number of bytes in front of the pattern", getattr(shift, "lin", shift)))
+        if only is not None:
+            bad = [x for x in bad if x[0] in only]
         for name, want, got in bad:
             R.violation(rule, "%s|%s" % (STO, name), "storage-header parser: `%s` must be %s, it is %s" % (name, want, str(got)[:200]), function=STO, file=fl, line=ln)
         if not bad:
@@ -242,7 +248,7 @@ def check_storage(ctx, rule="WIRE-PH"):
     # refusals: once the pattern was found at p, the parser may only refuse while fewer than 16 bytes follow p
     n_err = 0
     ilen = Lin.sym("len(input)")
-    for st, rv in outs:
+    for st, rv in (outs if only is None else []):
         if not isinstance(rv, Enum):
             continue
         for vi, fs in rv.variants:
